@@ -9,6 +9,7 @@ package main
 import (
 	"fmt"
 	"go/ast"
+	"go/constant"
 	"go/token"
 	"go/types"
 	"strconv"
@@ -25,6 +26,7 @@ func checkC05(c *Ctx, r *Report) {
 	c05a(c, r)
 	c05bRepo(c, r)
 	c05bWriter(c, r)
+	c05VtSet(c, r, "C05.b")
 	c05c(c, r)
 	c05d(c, r)
 	c05Staged(c, r)
@@ -1072,6 +1074,112 @@ func c05bWriter(c *Ctx, r *Report) {
 		"TrySplitTable does not append goto row i element-wise (element j to action row j) in row order; the combined row's columns no longer equal the dense columns")
 }
 
+// c05VtSet — the column layout counts terminals with len(G.VtSet) (writer, reader constant NTERMINALS, packer):
+// VtSet must be exactly the set of symbols that are not nonterminals, computed after every left-hand side has been
+// marked as a nonterminal and before the tables are built.
+func c05VtSet(c *Ctx, r *Report, clause string) {
+	f := c.need(r, clause, "Grammar", "Grammar", "ResolveSymbols")
+	if f == nil {
+		return
+	}
+	cf := newCoverFn(f)
+	info := cf.info
+	why := "no loop over the grammar's Symbols"
+	for _, rs := range cf.rangesOver(nil, func(e ast.Expr) bool { return fieldNamed(info, e, "Symbols") }) {
+		elem := identObj(info, rs.Value)
+		if elem == nil || !cf.unconditional(rs, f.Decl.Body) || !noSkips(rs.Body) {
+			why = "the loop over the symbols is conditional or can skip a symbol"
+			continue
+		}
+		why = "no store VtSet[<symbol>] = true guarded by exactly `!<symbol>.IsNonTerminator`"
+		ast.Inspect(rs.Body, func(n ast.Node) bool {
+			as, ok := n.(*ast.AssignStmt)
+			if !ok || len(as.Lhs) != 1 || len(as.Rhs) != 1 {
+				return true
+			}
+			ix, ok := unparen(as.Lhs[0]).(*ast.IndexExpr)
+			if !ok || !fieldNamed(info, ix.X, "VtSet") || identObj(info, ix.Index) != elem {
+				return true
+			}
+			if cv := constOf(info, as.Rhs[0]); cv == nil || cv.Kind() != constant.Bool || !constant.BoolVal(cv) {
+				why = "VtSet[<symbol>] is not set to true"
+				return true
+			}
+			// guards between the loop body and the store
+			var conds []string
+			exact := false
+			for cur := ast.Node(as); cur != nil && cur != ast.Node(rs.Body); cur = cf.pm[cur] {
+				if par, ok := cf.pm[cur].(*ast.IfStmt); ok {
+					if cur == ast.Node(par.Body) {
+						conds = append(conds, exprString(par.Cond))
+						if un, ok := unparen(par.Cond).(*ast.UnaryExpr); ok && un.Op == token.NOT {
+							if se, ok := unparen(un.X).(*ast.SelectorExpr); ok && fieldNamed(info, se, "IsNonTerminator") && identObj(info, se.X) == elem {
+								exact = true
+							}
+						}
+					} else {
+						conds = append(conds, "else of "+exprString(par.Cond))
+					}
+				}
+			}
+			if exact && len(conds) == 1 {
+				why = ""
+			} else {
+				why = fmt.Sprintf("a symbol enters VtSet under %v, not exactly when it is not a nonterminal", conds)
+			}
+			return true
+		})
+		if why == "" {
+			break
+		}
+	}
+	r.Check(why == "", clause, "R2 COVERAGE", f.Name+"/VtSet-is-the-set-of-terminals", c.pos(f.Decl.Pos()),
+		"every symbol of the grammar that is not a nonterminal — and no other — is put into VtSet: len(VtSet) is the number of terminal columns",
+		"len(VtSet) is not the number of terminals: "+why)
+	// who writes VtSet
+	if fv := lookupField(c, "Grammar", "Grammar", "VtSet"); fv != nil {
+		bad := ""
+		for _, w := range fieldWrites(c, fv) {
+			if w.fn != f.Name && !strings.HasSuffix(w.fn, "NewGrammar") {
+				bad = w.fn + " at " + c.pos(w.pos)
+			}
+		}
+		r.Check(bad == "", clause, "WHO-WRITES", "Grammar.Grammar.VtSet", c.pos(fv.Pos()), "VtSet is written by ResolveSymbols (and initialised by NewGrammar) only", "VtSet is also written by "+bad)
+	}
+	// order in BuildLALR1: after the loop that inserts the rules (SetNT of every left-hand side), before the automaton
+	if b := c.need(r, clause, "Parser", "Walker", "BuildLALR1"); b != nil {
+		binfo := b.Pkg.TypesInfo
+		var resolve, lastInsert, firstUse ast.Node
+		ast.Inspect(b.Decl.Body, func(n ast.Node) bool {
+			call, ok := n.(*ast.CallExpr)
+			if !ok {
+				return true
+			}
+			if fn := callee(binfo, call); fn != nil {
+				switch fn.Name() {
+				case "ResolveSymbols":
+					resolve = call
+				case "InsertNewRules":
+					lastInsert = call
+				case "ComputeAllGoto", "ComputeLALR":
+					if firstUse == nil {
+						firstUse = call
+					}
+				}
+			}
+			return true
+		})
+		ok := resolve != nil && lastInsert != nil && firstUse != nil && lastInsert.End() < resolve.Pos() && resolve.End() < firstUse.Pos()
+		if ok {
+			fc := buildCFG(binfo, b.Decl.Body)
+			ok = fc.Dominates(resolve, firstUse)
+		}
+		r.Check(ok, clause, "R2 ORDER", b.Name+"/ResolveSymbols-after-rules-before-tables", c.pos(b.Decl.Pos()),
+			"ResolveSymbols runs after all rules were inserted (every left-hand side is marked as nonterminal) and dominates the construction of automaton and tables",
+			"ResolveSymbols does not run between the insertion of the rules and the construction of the automaton on every path: terminals would be counted with stale nonterminal marks")
+	}
+}
+
 // normAffine sorts the summands of a parenthesised sum like "((NT + I) + 1)".
 func normAffine(s string) string {
 	s = strings.NewReplacer("(", "", ")", "", " ", "").Replace(s)
@@ -1507,6 +1615,16 @@ func c05Staged(c *Ctx, r *Report) {
 			checkReader(r, clause, rt, "full")
 		}
 		// NTERMINALS hole provenance: the same expression the writer uses
+		ntFilled := false
+		for fv := range sc.Eval.fieldsP {
+			if fv.Name() == "NTerminals" {
+				ntFilled = true
+			}
+		}
+		if !ntFilled {
+			r.Fail(clause, "R1 PROVENANCE", "Builder.(*TemplateBuilder).NTerminals/"+sc.V.Name, "Builder/GoTemplBuilder.go",
+				"NTERMINALS is never filled (it renders as 0): the reader's `a > NTERMINALS` then takes the goto default for every terminal column")
+		}
 		for fv, p := range sc.Eval.fieldsP {
 			if fv.Name() == "NTerminals" {
 				r.Check(strings.HasPrefix(p, "len(") && strings.HasSuffix(p, ".G.VtSet)"), clause, "R1 PROVENANCE", "Builder.(*TemplateBuilder).NTerminals/"+sc.V.Name, c.pos(sc.Eval.fieldPos[fv]),
